@@ -142,3 +142,17 @@ package fai
 //@   at stmt "lenID := bytes.IndexAny(b, " \t")" assume ret != 0
 //@   loop 0 invariant @layout rec.BasesPerLine <= rec.BytesPerLine && (rec.BytesPerLine == 0 ==> (rec.BasesPerLine == 0 && rec.Length == 0)) &&
 //@       (rec.Length > 0 ==> rec.BasesPerLine > 0)
+// Length: the bases of a sequence are the bytes of its lines with the line
+// terminator and surrounding blanks removed, so the length recorded is the sum
+// of the trimmed line lengths since the header (ghost gsum). Stated for clean
+// input only (gclean: no sequence line before the first header and none after a header
+// with an empty name; gnamed: the record being built has a name), which every well-formed FASTA file is.
+//@   ghost gsum int
+//@   ghost gclean bool
+//@   ghost gnamed bool
+//@   at entry ghost gsum = 0; gclean = true; gnamed = false
+//@   at stmt "b := bytes.TrimSpace(sc.Bytes())" ghost gsum = gsum + len(ret)
+//@   at stmt "lenID := bytes.IndexAny(b, " \t")" ghost gclean = gclean && (gnamed || rec.Length == 0); gsum = 0
+//@   at loop 0 back ghost gnamed = rec.Name != ""
+//@   loop 0 invariant @length (ghdr >= 0 && gclean) ==> rec.Length == gsum
+//@   loop 0 invariant @named gnamed == (rec.Name != "")
